@@ -20,7 +20,8 @@ The bin targets are FIXED files (src/bin/c07.rs, src/bin/c07_shard_00.rs .. c07_
         cargo build --offline --release -p vh-progs --bins
     VERIF_ROOT=<root> <tgt>/release/c07 --tier T
 
-Every Rust type definition and its description come from ONE Python structure (`Ty`), the
+Every Rust type definition and its description come from ONE Python structure (the dicts built by
+`struct_ty` / `enum_ty` / `strenum_ty` / NEWTYPES), the
 description is `json.dump` of that structure, the Rust text is printed from it.
 
 Space (see DESIGN.md C07):
